@@ -301,6 +301,8 @@ def rule_fallback(fx, rep):
         for (b, bb, t) in fx.callers_of(lambda nm, meth=meth: nm.endswith(meth)):
             if b.name not in cone or "::tests::" in b.name:
                 continue
+            if "principal_variation::PrincipalVariation::" in norm(b.name):
+                continue  # one PV method built from another: the writer that matters is the caller of the outer method
             n += 1
             allowed = {"PrincipalVariation::push": {neg.name}, "PrincipalVariation::clear": {neg.name},
                        "PrincipalVariation::append": {fx.one("search::get_tablebase_pv").name}}[meth]
